@@ -5,7 +5,7 @@
 // demonstrably tried to take the lock, so that the overlap the property is
 // about happens on every run instead of once in a blue moon.
 //
-// usage: locks <out.ndjson> <seed> <rounds>      (prints a JSON summary)
+// usage: locks <out.ndjson> <seed> <rounds> [leafcap intcap]     (prints a JSON summary)
 package main
 
 import (
@@ -115,6 +115,11 @@ func main() {
 	out := os.Args[1]
 	seed, _ := strconv.ParseInt(os.Args[2], 10, 64)
 	rounds, _ := strconv.Atoi(os.Args[3])
+	capLeaf, capInt := 0, 0 // optional: page capacities (small ones make catalog pages split early)
+	if len(os.Args) > 5 {
+		capLeaf, _ = strconv.Atoi(os.Args[4])
+		capInt, _ = strconv.Atoi(os.Args[5])
+	}
 	rng := rand.New(rand.NewSource(seed))
 	fd, _ := syscall.Dup(1)
 	proto := os.NewFile(uintptr(fd), "proto")
@@ -126,7 +131,7 @@ func main() {
 	sessGoid = goid()
 	os.RemoveAll("data")
 	storage.VerifAutoFlushDefault() // real timers
-	storage.VerifSetCaps(0, 0)
+	storage.VerifSetCaps(capLeaf, capInt)
 	storage.VerifSetEventSink(sink)
 	if err := storage.InitStorage(); err != nil {
 		fmt.Fprintln(proto, `{"ok":false,"err":"init"}`)
